@@ -663,6 +663,9 @@ fn run(db: &dyn Db, key: String, sel: FnSel, hs0: Vec<Id>, is0: Vec<(i64, Id)>) 
     };
     evk!(key, "e": "bs");
     cb("body");
+    if let FnSel::F(j) = sel {
+        crate::log::cb_body(j as i64);
+    }
     let mut hs = hs0; // struct handles visible to this body
     let mut is = is0; // interned handles
     let mut created: Vec<Id> = vec![];
